@@ -136,7 +136,8 @@ def report(ctx, verdicts, vecs_by_key, origin):
             (" via TokenAwareHostPolicy(%s) after picks" % vec["pol"]) if vec.get("pol") else "", vec["strat"],
             dict(zip(vec["rfdc"], vec["rfn"])),
             ("panic: " + vec["pmsg"]) if vec["pclass"] != "none" else
-            "token %s: driver %s, Cassandra %s" % (smp["t"], smp["got"], smp["ref"]))
+            ("after the update that could not be carried out the policy still associates %s" % [e for e in vec["look3"] if e["hosts"]][:3])
+            if key.split("-")[1:2] == ["stale"] else "token %s: driver %s, Cassandra %s" % (smp["t"], smp["got"], smp["ref"]))
         ctx.violation(key, what, dict(count=len(ks), verdict=first, vector=vec,
                                       more=[vecs_by_key[k] for k in ks[1:3]]))
     return groups
